@@ -60,7 +60,7 @@ CHECKS = {
         category="model_checking",
         engine="E1 refinement",
         technique="explicit-state BFS over the reference model's state graph; every transition re-executed on a fresh real backend (MemStore, SQLite memory/file, LMDB) by shortest-path replay, full read surface compared (refinement check); reopen as a transition",
-        text="Model = keyspace -> id -> (stamp, live bytes | tombstone). Alphabet: 2 keyspaces, ids {2, 2^63+1}, payloads {empty, x, 64 KiB}, 3 non-monotonic stamps, put / multi_put (incl. same id twice) / mark_as_tombstone (incl. absent ids and empty keyspaces) / mark_many / remove_tombstones (tombstoned ids only) / close-and-reopen. Every transition is executed on the real backend and get, multi_get, iter_metadata, keyspace list (asked before any other read, between the reads of two keyspaces and at the end, because a handle may answer from what it has touched so far) and raw SQLite rows must equal the model. Closure of the reduced alphabet on MemStore/SQLite and depth 3 with reopen on SQLite-file/LMDB (quick), full alphabet and LMDB/SQLite-file closure with reopen (thorough).",
+        text="Model = keyspace -> id -> (stamp, live bytes | tombstone). Alphabet: 2 keyspaces, ids {2, 2^63+1}, payloads {empty, x, 64 KiB}, 3 non-monotonic stamps, put / multi_put (incl. same id twice) / mark_as_tombstone (incl. absent ids and empty keyspaces) / mark_many / remove_tombstones (tombstoned ids only) / close-and-reopen. Every transition is executed on the real backend and get, multi_get, iter_metadata, keyspace list (asked before any other read, between the reads of two keyspaces and at the end, because a handle may answer from what it has touched so far) and raw SQLite rows must equal the model. Closure of the reduced alphabet on MemStore/SQLite and depth 3 with reopen on SQLite-file/LMDB (quick), full alphabet and LMDB/SQLite-file closure with reopen (thorough). Plus a subset-purge block over four ids {2^63+1, 2, 5, 9}: every assignment of the ids to absent/live/tombstone, every non-empty subset of the tombstones purged (both argument orders), on all four backends (968 scenarios).",
         note="I/O failures and torn writes are not modelled. Keyspace-list oracle allows empty keyspaces to be listed or not.",
         design="DESIGN.md section 3, C17",
     ),
@@ -84,23 +84,23 @@ CHECKS = {
         category="model_checking",
         engine="E1 by replay, Layer B single node",
         technique="explicit-state BFS by history replay on the real keyspace actor with a fault-injecting storage wrapper; state = (decoded Serialize reply, store rows); agreement oracle after every request",
-        text="Requests Set/Del/MultiSet (one document, none, pairs incl. the same id twice in both stamp orders, the same id twice followed by another document)/MultiDel/PurgeDeletes with stamps from a grid with >1h gaps, two origins, both sources, any arrival order, and per storage call the answers ok / fail-before / fail-after-k / fail-only-document-i (exactly the written ids reported; the last is a non-prefix partial failure) are sent to the real actor through its mailbox. After every request, successful or failed, live ids+stamps of the set must equal the store's documents, tombstones must equal the store's tombstones, and stored bytes must belong to the write whose stamp the row carries. Depth 3 on a harness map store and depth 2 on MemStore (quick), depth 4/3 (thorough). Plus purges of 3-130 (300) tombstones at once with the storage removing a prefix / all but one / nothing: agreement after the failed purge and after a second, healthy one.",
+        text="Requests Set/Del/MultiSet (one document, none, pairs incl. the same id twice in both stamp orders and a delete carrying exactly the stamp of a put of the same id, the same id twice followed by another document)/MultiDel/PurgeDeletes with stamps from a grid with >1h gaps, two origins, both sources, any arrival order, and per storage call the answers ok / fail-before / fail-after-k / fail-only-document-i (exactly the written ids reported; the last is a non-prefix partial failure) are sent to the real actor through its mailbox. After every request, successful or failed, live ids+stamps of the set must equal the store's documents, tombstones must equal the store's tombstones, and stored bytes must belong to the write whose stamp the row carries. Depth 3 on a harness map store and depth 2 on MemStore (quick), depth 4/3 (thorough). Plus purges of 3-130 (300) tombstones at once with the storage removing a prefix / all but one / nothing: agreement after the failed purge and after a second, healthy one.",
         note="Single-document storage calls fail atomically. (A duplicated id combined with a partial bulk failure used to be excluded as contract-ambiguous; including it exposed defect F15, fixed in 9588667.)",
         design="DESIGN.md section 3, C02",
     ),
     "C18": dict(
         category="model_checking",
         engine="E2, Layer B single node",
-        technique="stateless schedule exploration of all await-point interleavings of k concurrent first users of a fresh keyspace on a real node (four real entry paths), re-execution from choice prefixes",
-        text="k=2 tasks (all 13 combinations of entry paths: group lookup + Set, public put, incoming ConsistencyService RPC, incoming GetState RPC, the node's own repair cycle against a peer holding the keyspace) over ALL interleavings, k=3 up to 2 (quick) / 6 (thorough) deviations, fine-grained mode (one task poll per step). After each execution the set returned by a new lookup must contain every acknowledged id and storage must hold exactly the acknowledged writes.",
+        technique="stateless schedule exploration of all await-point interleavings of k concurrent first users of a fresh keyspace on a real node (five real entry paths), and of users of an existing keyspace against the group's real tombstone sweep task, re-execution from choice prefixes",
+        text="k=2 tasks (all 13 combinations of entry paths: group lookup + Set, public put, incoming ConsistencyService RPC, incoming GetState RPC, the node's own repair cycle against a peer holding the keyspace) over ALL interleavings, k=3 up to 2 (quick) / 6 (thorough) deviations, fine-grained mode (one task poll per step). After each execution the set returned by a new lookup must contain every acknowledged id and storage must hold exactly the acknowledged writes. Later uses: with the keyspace existing and the group's real hourly tombstone sweep task due, one or two tasks (four entry paths) interleaved with the sweep's steps one poll at a time (<=3/<=5 deviations); same oracle plus the earlier document must still be in the set.",
         note="Await-point granularity on a current-thread runtime; the property's window lies across awaits.",
         design="DESIGN.md section 3, C18",
     ),
     "C19": dict(
         category="exploration",
         engine="E4 + E1 by replay, Layer B",
-        technique="bounded exhaustive enumeration of sender states (generator states, size grid covering every frame-length residue, origin/source families, 1k-20k entries) transferred through the real ReplicationService/ReplicationClient, plus BFS by replay over sender histories with a peer fetching after every request",
-        text="Static: ~1 700 (quick) / ~4 000 (thorough) distinct sender states are installed with add_state and fetched with the real get_state RPC; the received set must equal the sender's full snapshot (live, tombstones, per-source stamps, cut-offs) and decide a probe grid of will_apply/insert/delete identically. Dynamic: histories of sets, deletes and purges to depth 4/6 on a real node; after every request the state a peer obtains must equal the sender's Serialize reply at that moment. Undecodable states: a fake peer registered under the real service name and message path answers GetState with 244 (quick) / ~2 500 (thorough) blobs (empty, short, text, truncations and byte inversions of a genuine state on a grid - every position in thorough -, every single-bit flip of its last 24/200 bytes), each probed in its own child process; whenever rkyv's validating decoder refuses the bytes the client must return an error (not a state, not a panic or abort), and whenever it accepts them the client must return the same state; a control transfer of the genuine state guards the impersonation.",
+        technique="bounded exhaustive enumeration of sender states (generator states, size grid covering every frame-length residue, origin/source families, 1k-20k entries) transferred through the real ReplicationService/ReplicationClient, plus BFS by replay over sender histories with a peer fetching after every request, plus stateless schedule exploration of a state request against concurrent writers",
+        text="Static: ~1 700 (quick) / ~4 000 (thorough) distinct sender states are installed with add_state and fetched with the real get_state RPC; the received set must equal the sender's full snapshot (live, tombstones, per-source stamps, cut-offs) and decide a probe grid of will_apply/insert/delete identically. Dynamic: histories of sets, deletes and purges to depth 4/6 on a real node; after every request the state a peer obtains must equal the sender's Serialize reply at that moment. Undecodable states: a fake peer registered under the real service name and message path answers GetState with 244 (quick) / ~2 500 (thorough) blobs (empty, short, text, truncations and byte inversions of a genuine state on a grid - every position in thorough -, every single-bit flip of its last 24/200 bytes), each probed in its own child process; whenever rkyv's validating decoder refuses the bytes the client must return an error (not a state, not a panic or abort), and whenever it accepts them the client must return the same state; a control transfer of the genuine state guards the impersonation. State vs change stamp (E2 schedule exploration): a GetState request and one or two writers (put, del, put_many, incoming RPC) on one keyspace of a real node, all await-point interleavings (coarse unbounded; actor stepped one poll at a time with <=3/<=5 deviations): whenever the change stamp in the reply equals the stamp the node advertises at quiescence, the reply's live ids, tombstones and stamps must equal the node's.",
         note="In-process transport (single-chunk reply). Debug assertions on: misaligned/out-of-bounds decoding panics instead of being UB.",
         design="DESIGN.md section 3, C19",
     ),
@@ -148,7 +148,7 @@ CHECKS = {
         category="exploration",
         engine="E4",
         technique="complete cartesian enumeration over boundary grids (round trips, all ordered pairs for ordering, all strings of a hostile grammar under catch_unwind)",
-        text="900 (quick) / 9k (thorough) valid field tuples: new/accessors/u64/text/archived round trips and 4 ms quantisation; every ordered pair compared against lexicographic order; from_str on all 65 536 strings a-b-c-d over 16 field spellings plus structural variants: Ok or Err, never a panic, accepted text re-prints to something that parses to the same value. Input-quantified property: exhaustive boundary enumeration is the fitting level.",
+        text="900 (quick) / 9k (thorough) valid field tuples: new/accessors/u64/text/archived round trips and 4 ms quantisation; every ordered pair compared against lexicographic order; from_str on all 65 536 strings a-b-c-d over 16 field spellings plus structural variants and 2-/3-/4-byte characters inserted at or replacing every offset of five printed forms: Ok or Err, never a panic, accepted text re-prints to something that parses to the same value. Input-quantified property: exhaustive boundary enumeration is the fitting level.",
         note="Values between grid points are not covered.",
         design="DESIGN.md section 3, C10",
     ),
